@@ -211,6 +211,8 @@ def do_request(f, req, rng=None, fn_form=False, as_tuple=False):
     op = req["op"]
     if op == "integrate":
         return call(lambda: integrate_api(f, pydir(req.get("dir"), as_tuple), req["cumulative"], fn_form))
+    if op == "integrate_abs":
+        return call(lambda: integrate_api(abs(f), pydir(req.get("dir"), as_tuple), req["cumulative"], fn_form))
     if op == "mean":
         return call(lambda: f.mean(pydir(req.get("dir"), as_tuple)) if "dir" in req else f.mean())
     if op == "integrate_seq":
@@ -488,6 +490,20 @@ def field_oracle(case, f, arr, mesh, rng, fail, exact, light=False):
         if isinstance(rb, df.Field) and "cumulative" not in label and not reduced_mesh_ok(rb.mesh, spec, [dims.index(d)], shift):
             fail(f"{label} on the moved mesh lives on {rb.mesh}")
             return
+    # 8b. absolute value: integral of |f| = cell measure x sum of |cell values|, and it bounds |integral of f|
+    fa = call(lambda: abs(f))
+    Ia = call(lambda: fa.integrate())
+    if is_err(fa) or is_err(Ia) or not same(Ia, np.abs(A).sum(axis=space) * dV, absum * dV):
+        fail(f"abs(field).integrate() = {Ia if is_err(Ia) else np.asarray(Ia).tolist()}, cell volume x sum of |cell values| = {[str(x) for x in np.abs(A).sum(axis=space) * dV]}")
+        return
+    if not all(abs(Fraction(float(x))) <= Fraction(float(y)) for x, y in zip(np.asarray(I0).reshape(-1), np.asarray(Ia).reshape(-1))):
+        fail(f"|integrate()| = {np.abs(np.asarray(I0)).tolist()} exceeds abs(field).integrate() = {np.asarray(Ia).tolist()}")
+        return
+    ax_a = dims.index(d)
+    Ca = call(lambda: fa.integrate(d, cumulative=True))
+    if is_err(Ca) or not isinstance(Ca, df.Field) or not same(Ca.array, (np.cumsum(np.abs(A), axis=ax_a) - np.abs(A) / 2) * cell[ax_a], absum * cell[ax_a]):
+        fail(f"abs(field).integrate('{d}', cumulative=True) is not cell x (preceding |values| + half own |value|)")
+        return
     # 9. refusals
     r = call(lambda: f.integrate(cumulative=True))
     if not is_err(r):
@@ -531,6 +547,10 @@ def requests_for(case, rng, dims, tier):
         rng.shuffle(subsets)
         subsets = subsets[:4]
     reqs += [dict(op="mean", dir=s) for s in subsets]
+    # abs(field): every form of the integral of the absolute value
+    da = dims[rng.randrange(nd)]
+    reqs += [dict(op="integrate_abs", dir=None, cumulative=False), dict(op="integrate_abs", dir=da, cumulative=False),
+             dict(op="integrate_abs", dir=da, cumulative=True)]
     # partial chains (direction by direction, not all directions)
     if nd >= 3:
         p = list(rng.sample(dims, rng.randint(2, nd - 1)))
@@ -711,9 +731,33 @@ def run_impl(case):
     return obs
 
 
+def exact_prefix(case):
+    """number of leading steps the model can replay exactly itself (scale / translate; a quarter turn goes through
+    float sin/cos in the code and ends the prefix)"""
+    p = 0
+    for st in case["steps"]:
+        if st["op"] == "rotate90":
+            break
+        p += 1
+    return p
+
+
+def step_json(st):
+    if st["op"] == "scale":
+        fac = Qs(st["factor"]) if isinstance(st["factor"], list) else Q(st["factor"])
+        return dict(op="scale", factor=fac, ref=(Qs(st["ref"]) if st.get("ref") else None), target=st["target"])
+    return dict(op="translate", vector=Qs(st["vector"]), target=st["target"])
+
+
 def model_requests(case, obs):
     if case["kind"] == "history":
-        return [dict(op="batch", field=st["field"], reqs=st["reqs"]) for stage in obs["stages"] for st in stage]
+        reqs = [dict(op="batch", field=st["field"], reqs=st["reqs"]) for stage in obs["stages"] for st in stage]
+        # the model evolves the mesh ITSELF from the initial state (in-place steps of the shared transformation model)
+        # and answers the same requests after every step
+        p = exact_prefix(case)
+        st0 = obs["stages"][0][0]
+        reqs.append(dict(op="hist", field=st0["field"], steps=[step_json(s) for s in case["steps"][:p]], reqs=st0["reqs"]))
+        return reqs
     return [dict(op="batch", field=obs["field"], reqs=obs["reqs"])]
 
 
@@ -805,6 +849,8 @@ def cmp_res(name, got, resp, dis, mode, scale):
 def req_label(r):
     if r["op"] == "integrate":
         return f"integrate({r.get('dir')!r}, cumulative={r['cumulative']})"
+    if r["op"] == "integrate_abs":
+        return f"abs(field).integrate({r.get('dir')!r}, cumulative={r['cumulative']})"
     if r["op"] == "mean":
         return f"mean({r.get('dir')!r})"
     if r["op"] == "integrate_seq":
@@ -818,8 +864,10 @@ def compare(case, obs, rs):
     dis = []
     if case["kind"] == "history":
         flat = [(k, fi, st) for k, stage in enumerate(obs["stages"]) for fi, st in enumerate(stage)]
-        if len(flat) != len(rs):
+        if len(flat) + 1 != len(rs):
             raise core.MachineryError("history batch count mismatch")
+        compare_hist(case, obs, rs[-1], dis)
+        rs = rs[:-1]
         for (k, fi, st), resp in zip(flat, rs):
             if "ok" not in resp:
                 dis.append(f"model batch failed after {k} step(s): {resp}")
@@ -857,12 +905,45 @@ def compare(case, obs, rs):
     return dis
 
 
+def compare_hist(case, obs, resp, dis):
+    """the model replays the in-place steps itself (hstep of DFV/Model/C06Hist.lean): after every step its mesh and its
+    answers must be those of the real objects, and the accumulated volume factor must be dV_now / dV_initial"""
+    p = exact_prefix(case)
+    if "ok" not in resp:
+        dis.append(f"model history replay failed: {resp}")
+        return
+    states = resp["ok"]
+    if len(states) != p + 1:
+        raise core.MachineryError("history replay length mismatch")
+    for k, state in enumerate(states):
+        st = obs["stages"][k][0]
+        name = f"model-replayed history, after {k} in-place step(s) {case['steps'][:k]}"
+        n0 = len(dis)
+        cmp_mesh(name + ": mesh", st["field"]["mesh"], state["mesh"], dis, True)
+        if len(dis) > n0:
+            return
+        for r, got, out in zip(st["reqs"], st["res"], state["outs"]):
+            cmp_res(f"{name}: {req_label(r)}", got, out, dis, "round" if r["op"] == "mean" else "exact", Fraction(0))
+            if len(dis) > n0:
+                return
+    # volume factor of the whole prefix
+    def dv(k):
+        st = obs["stages"][k][0]
+        for r, got in zip(st["reqs"], st["res"]):
+            if r["op"] == "dV" and "vals" in got:
+                return F(got["vals"][0])
+        return None
+    a, b = dv(0), dv(p)
+    if a is not None and b is not None and F(resp["vol"]) * a != b:
+        dis.append(f"model volume factor of the history {case['steps'][:p]} is {resp['vol']}, impl dV went from {a} to {b}")
+
+
 def measure_of(mj, r):
     reg = mj["region"]
     cell = {d: (F(b) - F(a)) / k for d, a, b, k in zip(reg["dims"], reg["pmin"], reg["pmax"], mj["n"])}
-    if r["op"] == "integrate" and r.get("dir") is None:
+    if r["op"] in ("integrate", "integrate_abs") and r.get("dir") is None:
         ds = list(reg["dims"])
-    elif r["op"] == "integrate":
+    elif r["op"] in ("integrate", "integrate_abs"):
         ds = [r["dir"]] if isinstance(r["dir"], str) else []
     elif r["op"] == "integrate_seq":
         ds = r["dirs"]
